@@ -235,22 +235,6 @@ Proof.
   exists r0. auto 10.
 Qed.
 
-Lemma reader_init_ok_old caching choose m0 fs :
-  legal caching choose -> good caching m0 ->
-  exists r0, reader_init caching choose m0 fs = Some r0 /\
-    good caching (r_m r0) /\ wf r0 /\ r_env r0 = m_F m0 /\ ext caching m0 (r_m r0) /\
-    sim (mkS [mkF DocumentNode [] fs []] None SNone) r0.
-Proof.
-  intros HL Hg.
-  destruct (do_create caching choose m0 (N_of_ntype DocumentNode) [] fs HL Hg)
-    as (m1 & n & id & Hdo & Hg1 & HF1 & Hn & Hlog & Hnode & Hother).
-  unfold reader_init, tree_init. rewrite Hdo. eexists. split; [reflexivity|]. simpl.
-  split; [exact Hg1|split; [|split; [reflexivity|split; [eapply do_op_ext; eauto|]]]].
-  - unfold wf, r_forest, r_tree. simpl. exact HF1.
-  - unfold sim. simpl. split; [|split; [intros E; discriminate|reflexivity]].
-    constructor; [|constructor]. split; [|reflexivity]. unfold node_pay. simpl. rewrite Hnode. reflexivity.
-Qed.
-
 (* ---- the XML reader, read to the end ------------------------------------------------------------------------------ *)
 Section XmlRun.
   Variable pm : list name -> bool.
